@@ -452,6 +452,13 @@ func (st *state) exec(op *plan.Op, shared *scripted) (res plan.Res) {
 				h.Write([]byte{'\n'})
 			}
 			res.Dig, res.Out, res.OutOK = hex.EncodeToString(h.Sum(nil)), outHex([]byte(last)), true
+		case "pause":
+			// the process is idle for op.N milliseconds and the garbage collector runs twice
+			// (sync.Pool drops its contents after two cycles)
+			runtime.GC()
+			time.Sleep(time.Duration(op.N) * time.Millisecond)
+			runtime.GC()
+			res.OutOK = true
 		case "srcset":
 			if st.persist != nil {
 				bip39.VerifSwapRandSource(st.persistPrev)
